@@ -9,6 +9,8 @@ the Go source is (a) the correspondence run of this check on arbitrary and mutat
 (b) the inventory below: the complete list of operations in the codec files that CAN panic,
 regenerated from the source on every run; each is accounted for in the model.
 -/
+import Smpp.Properties.SrcPduCodec
+import Smpp.Properties.SrcPduFrame
 import Smpp.Proofs.Framing
 import Smpp.Generated.Layouts
 import Smpp.Generated.PduFacts
